@@ -1,5 +1,7 @@
-"""C11 (type-legality clause): which types are legal in which declaration position, decided for every
-type up to a nesting depth by symbolic execution of src/alpha/value_type.rs against vtref.py."""
+"""C11: (1) type-legality clause: which types are legal in which declaration position, decided for every type up to a
+nesting depth by symbolic execution of src/alpha/value_type.rs against vtref.py; (2) containment clause
+(containercheck.py): cycle detection, containment closure and container depths of
+src/alpha/scoper/variable_references.rs as one step from an arbitrary consistent analyzer state."""
 import time
 import z3
 
@@ -63,7 +65,11 @@ def run(tier):
                        [('is_wellformed', 1)])
     n_un = 400 if tier == 'quick' else 3000
     S.validate([f for f, _, _ in specs] + ['known_size_in_bytes_as_word_member'], [], n_un, 0)
-    return finish(S, tier)
+    import containercheck
+    S.container_bounds = containercheck.run(S, tier)
+    return finish(S, tier, ['order independence of whole programs and duplicate-name detection (predeclare): not encoded',
+                            'analyzer states after the first reported containment cycle (the module is rejected already)',
+                            'resolution ids of 8 and above (the HashSet<u32> model is an 8-bit set)'])
 
 
 def finish(S, tier, extra_outside=None):
@@ -71,9 +77,13 @@ def finish(S, tier, extra_outside=None):
     out_viol = []
     for v in S.violations:
         key = '%s:%s%s' % (v['query'], vtlib.wire(v['a']), (',' + vtlib.wire(v['b'])) if v['b'] else '')
+        if v.get('key_extra'):
+            key = '%s:%s' % (v['query'], v['key_extra'])
         conf = {'request': v.get('native_request'), 'answer': v.get('native_answer')} if v.get('confirmed') else S.confirm(v)
         what = '%s fails for a=%s%s (%s)' % (v['query'], vtlib.wire(v['a']),
                                                (' b=' + vtlib.wire(v['b'])) if v['b'] else '', v['statement'])
+        if v.get('key_extra'):
+            what = '%s fails for [%s] -> native [%s] (%s)' % (v['query'], v['native_request'], v['native_answer'], v['statement'])
         if key in known or ('query:' + v['query']) in known:
             log('KNOWN-FINDING: property=%s %s' % (S.prop, what))
             continue
@@ -94,7 +104,7 @@ def finish(S, tier, extra_outside=None):
                        '(arbitrary lengths, identifiers as 16-bit tokens); each query asserts the negation of a clause and must be '
                        'unsat. The encoding is validated on concrete types against the native functions before any verdict is used.' % S.depth,
         'functions_encoded': sorted(set(S.functions)),
-        'bounds': {'type_nesting_depth': S.depth, 'outside': 'types nested deeper than %d' % S.depth},
+        'bounds': dict({'type_nesting_depth': S.depth, 'outside': 'types nested deeper than %d' % S.depth}, **getattr(S, 'container_bounds', {})),
         'queries_discharged': nq,
         'queries_unsat': len([q for q in S.queries if q['result'] == 'unsat']),
         'solver_time_s': round(S.solver_s, 3),
@@ -115,8 +125,11 @@ def finish(S, tier, extra_outside=None):
                     'vtref.py is the reference reading of the documented rules',
                     'generic parameter I modelled as a 16-bit token with equality only'],
                    violations=len(out_viol))
-    log('%s: depth %d, %d queries (%d unsat), %d native comparisons, solver %.2fs, exec %.2fs, wall %.1fs'
-        % (S.prop, S.depth, nq, cov['queries_unsat'], S.validated, S.solver_s, S.exec_s, wall))
+    nw = len([q for q in S.queries if q.get('expected') == 'sat'])
+    cov['vacuity_witnesses_sat'] = nw
+    log('%s: depth %d, %d queries (%d unsat%s), %d native comparisons, solver %.2fs, exec %.2fs, wall %.1fs'
+        % (S.prop, S.depth, nq, cov['queries_unsat'], (', %d reachability witnesses sat as required' % nw) if nw else '',
+           S.validated, S.solver_s, S.exec_s, wall))
     for what, rp in out_viol:
         log('VIOLATION property=%s replay=%s' % (S.prop, rp))
         log('  ' + what)
@@ -124,4 +137,17 @@ def finish(S, tier, extra_outside=None):
 
 
 def replay_file(path):
+    import json
+    r = json.load(open(path))
+    req = (r.get('native_vs_encoding') or {}).get('request') or ''
+    if req.startswith(('step ', 'depths ')):
+        import containercheck
+        S = vtcheck.Session(PROP, 1)
+        got = containercheck.native(S, [req])[0]
+        log('native container-eval [%s] -> [%s]   [recorded: %s]' % (req, got, r['native_vs_encoding'].get('answer')))
+        log('statement violated when recorded: %s' % r.get('statement'))
+        if got == r['native_vs_encoding'].get('answer'):
+            log('VIOLATION property=%s replay=%s' % (PROP, path))
+            return 1
+        return 0
     return vtcheck.replay_file(PROP, path)
